@@ -1075,7 +1075,7 @@ func TestCheck(t *testing.T) {
 		r.Assume("after a refused (conflicting) object the statement leaves open whether its non-conflicting part takes effect; both outcomes are accepted and the observed one is adopted")
 		r.Assume("SNI values carry no port (RFC 6066); port variants are exercised through the Host-header paths (handler chain, SNIVerifyOptions)")
 
-		nh := r.N(1000, 20000)
+		nh := r.N(3000, 20000)
 		evPer := 15
 		workers := runtime.GOMAXPROCS(0)
 		if workers > 16 {
